@@ -132,21 +132,36 @@ def _is_default_call_result(b, local):
     return False
 
 
-def run_roots(ctx, A, bodies, rid):
-    """analyse every root in `bodies`; returns log start index"""
+def run_roots(ctx, A, bodies, rid, modular=()):
+    """analyse every root in `bodies`; returns log start index.
+    modular: def-path prefixes of roots that, once analysed from arbitrary invariant states, are treated as opaque total
+    functions when later roots call them (their obligations are already in the log)."""
     since = len(A.ip.log)
     helpers = ts_helper_names(A)
     n = 0
-    for b in bodies:
+    done = set()
+    outer = A.ip.opaque_fn
+
+    def opaque(callee):
+        r = callee.get("resolved") or callee
+        if r["def"] in done:
+            return True
+        return outer(callee) if outer else False
+    A.ip.opaque_fn = opaque
+    order = sorted(bodies, key=lambda b: (0 if any(b["def"].startswith(m) for m in modular) else 1, b["span"]["file"], b["span"]["line"]))
+    for b in order:
         if b["def"] in helpers or not is_root(b):
             continue
         try:
             outs = A.run_fn(b)
+            if any(b["def"].startswith(m) for m in modular):
+                done.add(b["def"])
             n += 1
             ctx.count(rid + "-ROOTS")
         except (Unsupported, AnchorMissing) as e:
             ctx.violation(rid + "-UNSUPPORTED", b["def"], (b["span"]["file"], b["span"]["line"], b["def"]),
                           "analysis could not handle this root: %s" % e)
+    A.ip.opaque_fn = outer
     return since
 
 
